@@ -173,6 +173,9 @@ def run_case(case):
     for once in ("code", "key", "verifier", "versions", "closed"):
         if names.count(once) > 1:
             viol.append(("event-repeated:" + once, f"{once} notified {names.count(once)} times: {names}"))
+    # an internal failure ends the session for good: nothing sent afterwards is delivered
+    for ent in summary["internal"]:
+        viol.append(("internal:" + ent[0], f"the session was ended by an internal failure {ent}"))
     nontrivial = sum(1 for l in ob.lines if l == "drop") > 0
     return Result(ob.lines, ob.expect, viol, ["profile:" + prof], nontrivial)
 
